@@ -50,7 +50,7 @@ CHECKS = {
             "c12_per_symbol (orders = exactly the wanted ones), c12_one_order_per_quoted_target, c12_sells_first_shape, c12_order_independent for every iteration order of weights and holdings.",
             TB + R_AX, "3/C12"),
     "C13": ("Coq proof over R by induction on the cost list + bit-exact model/code correspondence",
-            "Theorems c13_* (Props/C13.v): no-overspend for every cost list of any length/order with each percentage in [0,1), fee additivity, price direction, budget monotonicity; proved of the Gallina model at F := R. The same definitions at the IEEE instance are compared bit-for-bit with BrokerCost on generated inputs every run.",
+            "Theorems c13_* (Props/C13.v): no-overspend for every cost list of any length/order with each percentage in [0,1), fee additivity, price direction, budget monotonicity; proved of the Gallina model at F := R. The same definitions at the IEEE instance are compared bit-for-bit with BrokerCost on generated inputs every run; the cost model is also read as the broker applies it (rebalancing sizes and fee figures of brokers built from a possibly re-used builder must use the configured cost list).",
             TB + R_AX + "IEEE rounding in the inequality is outside the theorem.", "3/C13"),
     "C14": ("Coq proof at R (exp/ln compounding, population variance, scale invariance) + bit-exact correspondence with observed libm table",
             "c14_period, c14_total, c14_total_no_flows, c14_best/_worst, c14_vol, c14_cagr, c14_sharpe, c14_scale, c14_vectors.",
@@ -62,13 +62,13 @@ CHECKS = {
             "c16_run_walks_dataset, c16_update_is_one_tick, c16_run_fuel_irrelevant (termination after exactly N updates, snapshot dates = clock after each tick), c16_cash_flow over all histories, c16_constant_prices_end_to_end — ONE theorem about the full composition: on an N-date dataset with constant zero-spread prices (gaps allowed) init(c) then run() performs N updates, records N snapshots, every snapshot's value equals c, for every weight map, cost list, hash order and sort oracle (c16_constant_prices_with_withdrawals: minus successful plain withdrawals); the system invariant is a state property established by the fresh start. init / update / withdrawals are compared step by step with the model; whole run() calls are judged by the direct reading (history length, dates, values, ncf).",
             TB + R_AX + "Intermediate hash orders inside one run() call are not observable, so whole run() calls are judged by the direct reading, init/update step by step against the model. The value theorem is over the reals.", "3/C16, 8.2"),
     "C17": ("Coq proof for every admissible sort result and every batch size (skeleton, every decision function) + exact Gallina model of the standard library's stable sort (insertion sort / driftsort) proved to satisfy the specification for the exchanges' comparator at every length + exact admission order compared on every trace",
-            SK + "c17_admission, c17_sells_get_smaller_ids, c17_ids_grow_with_admission, c17_fills_in_book_order, c17_book_sorted_always hold for every permutation of the buffer that puts sells first. slice::sort_by with this first-argument-only comparator is outside sort_by's contract, so Model/Sort.v transcribes what the installed std (rustc 1.95.0) does, function by function (insertion_sort_shift_left up to 20; driftsort: run detection, powersort merge tree, logical merges, merge through scratch, stable quicksort with pivot selection and the equal-partition branch, small_sort_general, the order-violation panic), generic in element type, comparator and size_of; Props/C17sort.v: the result is a permutation (c17s_result_is_permutation), sells first (c17s_sells_first), the sort never panics for this comparator (c17s_total), closed form up to 20 (sells reversed, then buys), and the oracle-free tick refines the oracle tick (c17s_tick_std_refines, c17s_run_std_refines) and never rejects. Every admission of every trace is compared with the model's exact order (aspect sort_exact, size_of::<Order>() as observed); thorough tier: sortval/run.sh compares the model with the real sort_by on 30 000+ inputs, nine comparator families (inconsistent ones included).",
+            SK + "c17_admission, c17_sells_get_smaller_ids, c17_ids_grow_with_admission, c17_fills_in_book_order, c17_book_sorted_always hold for every permutation of the buffer that puts sells first. slice::sort_by with this first-argument-only comparator is outside sort_by's contract, so Model/Sort.v transcribes what the installed std (rustc 1.95.0) does, function by function (insertion_sort_shift_left up to 20; driftsort: run detection, powersort merge tree, logical merges, merge through scratch, stable quicksort with pivot selection and the equal-partition branch, small_sort_general, the order-violation panic), generic in element type, comparator and size_of; Props/C17sort.v: the result is a permutation (c17s_result_is_permutation), sells first (c17s_sells_first), the sort never panics for this comparator (c17s_total), closed form up to 20 (sells reversed, then buys), and the oracle-free tick refines the oracle tick (c17s_tick_std_refines, c17s_run_std_refines) and never rejects. Every admission of every trace is compared with the model's exact order (aspect sort_exact, size_of::<Order>() as observed), and every observed exchange state must satisfy the invariant of the model's reachable states (book sorted by id, ids below the counter) that the per-tick theorems assume; thorough tier: sortval/run.sh compares the model with the real sort_by on 30 000+ inputs, nine comparator families (inconsistent ones included).",
             TB + "The transcription of std's sort is tied to the installed toolchain by the validation (32 075 of 32 075 inputs identical, re-run in the thorough tier) and by the per-run exact-order comparison; a different std version could sort differently, which those comparisons would show.", "3/C17, 8.6"),
     "C18": ("Coq proof (concrete Jura decision + lifecycle through the master tick lemma, every Num F) + step-wise bit-exact correspondence",
             "c18_ioc_first_attempt / _after_attempt / _lifecycle_*, c18_gtc, c18_trigger_decision (against independent ShouldFire), c18_trigger_lifecycle (child: fresh id, announced, not fillable on the same tick), c18_fill_fields.",
             TB + "limit_px / sz strings are modelled by their parse::<f64>() value (observed); Alo and unparsable strings are modelled as panics and excluded by premise.", "3/C18"),
     "C19": ("Coq proof, unbounded in Z: date-only lemma; spec equivalence by a complete vm_compute sweep of one 400-year period (146 097 days) lifted to every day by periodicity of the Gregorian calendar; exhaustive model/code comparison on that period plus blocks across the time crate's range",
-            "c19_date_only and c19_spec for EVERY timestamp (pre-1970 included); c19_calendar_epoch / c19_calendar_next characterise the model's calendar as the proleptic Gregorian one on every day; c19_calendar_period (400 years = 146 097 days = whole weeks). Every run compares the model with the time crate and schedule/mod.rs on every day 1970-2369 at several times of day and on blocks spread over years -9999..9999 (negative timestamps at non-midnight times), and reads the property directly with Python's calendar.",
+            "c19_date_only and c19_spec for EVERY timestamp (pre-1970 included); c19_calendar_epoch / c19_calendar_next characterise the model's calendar as the proleptic Gregorian one on every day; c19_calendar_period (400 years = 146 097 days = whole weeks). Every run compares the model with the time crate and schedule/mod.rs on every day 1970-2369 at several times of day and on blocks spread over years -9999..9999 (negative timestamps at non-midnight times), reads the property directly with Python's calendar, and asks every question again after queries about neighbouring years and months (the answer must be a function of its argument).",
             "Trusted: Coq kernel + vm_compute (two sweeps); the time crate's calendar is compared on one full period and sampled blocks, not modelled. Timestamps beyond the time crate's range make DateTime panic in the code: outside 'the supported range'.", "3/C19, 8.2"),
     "C20": ("Coq proof: JSON-tree round trips for every message type of both services + handler layer faithful over all request sequences; three-way correspondence (in-process / actix with real JSON / model)",
             "c20_transport_faithful (Uist) and c20_jura_transport_faithful (Jura, generic in the exchange, over the endpoints http/jura.rs mounts): decoded response stream = in-process result stream for every request sequence; c20_status_400_iff_none / c20_jura_status_400_iff_none; c20_rt_* (17 message types). Every run executes each scenario in-process and through actix_web::test with real JSON bodies and compares them (structure exact, floats 1e-12, 400 exactly at None), compares the HTTP run step by step with the server model, and compares every JSON body as a tree with the model's encoders/decoders.",
